@@ -147,6 +147,40 @@ theorem multisigLoop_eq_walk (env : Env) (c : Ctx) (sc : Bytes) (sigs keys : Lis
               exact ⟨a1, h', a2, fun k hk' => a3 k (by simp [hk'])⟩
             · simp at hfuel; omega
 
+/-! ### Signature removal removes the signature push, nothing else -/
+
+/-- **What legacy signature removal takes out of the script code**: an instruction stays unless it is a canonical
+    data push (opcode ≤ OP_PUSHDATA4) of exactly the signature bytes. -/
+theorem signature_removal_exact (ops : List POp) (sig : Bytes) (o : POp) :
+    o ∈ removeOpcodeByData ops sig ↔ o ∈ ops ∧ ¬ (o.op.toNat ≤ 0x4e ∧ canonicalPush o = true ∧ o.data = sig) := by
+  simp only [removeOpcodeByData, List.mem_filter, Bool.not_eq_eq_eq_not, Bool.not_true, Bool.and_eq_false_imp,
+    Bool.and_eq_true, decide_eq_true_eq, beq_iff_eq, beq_eq_false_iff_ne, ne_eq, and_congr_right_iff]
+  intro _
+  constructor
+  · intro h ⟨a, b, c⟩; exact h ⟨a, b⟩ c
+  · intro h ⟨a, b⟩ c; exact h ⟨a, b, c⟩
+
+/-- removal never reorders or invents instructions -/
+theorem signature_removal_sublist (ops : List POp) (sig : Bytes) : (removeOpcodeByData ops sig).Sublist ops := by
+  unfold removeOpcodeByData; exact List.filter_sublist
+
+/-- a script without a push of the signature is its own script code (apart from separators) -/
+theorem signature_removal_noop (ops : List POp) (sig : Bytes) (h : ∀ o ∈ ops, o.data ≠ sig) :
+    removeOpcodeByData ops sig = ops := by
+  unfold removeOpcodeByData
+  apply List.filter_eq_self.2
+  intro o ho
+  have := h o ho
+  simp [this]
+
+/-- the rule go-bt applied before fix F-C06-04 (containment) is a different function: it also removes a push of
+    `sig ‖ 01`, which the script rules keep (kernel-checked witness; the replay of the finding is this shape) -/
+theorem containment_removal_differs :
+    let sig : Bytes := [0x30, 0x06, 0x02, 0x01, 0x01, 0x02, 0x01, 0x01, 0x01]
+    let embed : POp := { op := 10, data := sig ++ [0x01], len := 11 }
+    removeOpcodeByData [embed] sig = [embed] ∧ removeOpcodeContaining [embed] sig = [] := by
+  decide
+
 /-! ### OP_CHECKSIG, stated outright -/
 
 /-- the script code OP_CHECKSIG signs: the sub-script (from after the last executed OP_CODESEPARATOR, `subScript`),
